@@ -302,8 +302,9 @@ def desugar_ccond(e):
 class Evaluator:
     """Evaluate model quantities at one point.  env: name -> float (states, parameters, 't')."""
 
-    def __init__(self, model, point, missing=None):
+    def __init__(self, model, point, missing=None, strict=False):
         self.model = model
+        self.strict = strict  # evaluate both branches of every conditional (as numpy.where does)
         self.assigns = X.assign_map(model)
         self.env = {}
         def safe_leaf(v):
@@ -384,6 +385,9 @@ class Evaluator:
         if tag == "cond":
             c = self.evalb(e[1])
             self.branches.append(c)
+            if self.strict:
+                a, b = self.eval(e[2]), self.eval(e[3])
+                return a if c else b
             return self.eval(e[2] if c else e[3])
         if tag == "ccond":
             return self.eval(desugar_ccond(e))
@@ -425,6 +429,17 @@ class Evaluator:
                 raise pending
             return False
         raise ValueError(f"not boolean: {e!r}")
+
+
+def strictly_undefined(model, point, missing=None) -> bool:
+    """True if some sub-expression of the model (also one in a branch that is not selected) is
+    undefined / out of range at this point"""
+    ev = Evaluator(model, point, missing, strict=True)
+    for a in model["assigns"]:
+        kind, _ = ev.status(a["name"])
+        if kind not in ("ok", "ambiguous", "ill-conditioned"):
+            return True
+    return False
 
 
 def const_value(e) -> RE:
